@@ -44,4 +44,13 @@ for m in muts:
         shutil.rmtree(d,ignore_errors=True)
 if not flt:
     json.dump(results,open('/verif/selftest/results.json','w'),indent=1)
+elif '--merge' in sys.argv and os.path.exists('/verif/selftest/results.json'):
+    # a partial re-run replaces the verdicts of the mutants it ran
+    old=json.load(open('/verif/selftest/results.json'))
+    ran={r['mutant'] for r in results}
+    names={m['name'] for m in muts}
+    merged=[r for r in old if r['mutant'] not in ran and r['mutant'] in names]+results
+    order={m['name']:i for i,m in enumerate(muts)}
+    merged.sort(key=lambda r:(order.get(r['mutant'],1e9),r['property']))
+    json.dump(merged,open('/verif/selftest/results.json','w'),indent=1)
 sys.exit(0 if ok else 1)
